@@ -415,6 +415,70 @@ def place_exit(variant: str) -> dict[str, str]:
     return out
 
 
+def watcher_shape() -> bool:
+    """True iff the note that note_for_info attaches to an info goes through _filter_error in _add_error_info
+    (the ErrorWatcher stack is asked again for it).  Fail-closed on any other shape."""
+    tree = ast.parse(vlib.read_repo("mypy/errors.py"))
+    cls = [n for n in tree.body if isinstance(n, ast.ClassDef) and n.name == "Errors"]
+    if len(cls) != 1:
+        raise Unsupported("class Errors not found")
+    fs = {n.name: n for n in cls[0].body if isinstance(n, ast.FunctionDef)}
+    for need in ("_add_error_info", "note_for_info", "add_error_info", "report_simple_error", "_filter_error"):
+        if need not in fs:
+            raise Unsupported(f"Errors.{need} not found")
+    f = fs["_add_error_info"]
+
+    def is_filter_call(e: ast.expr) -> bool:
+        return (isinstance(e, ast.Call) and isinstance(e.func, ast.Attribute) and e.func.attr == "_filter_error"
+                and isinstance(e.func.value, ast.Name) and e.func.value.id == "self" and not e.keywords
+                and [ast.unparse(a) for a in e.args] == ["file", "info"])
+    guards = [n for n in ast.walk(f) if isinstance(n, ast.If) and any(is_filter_call(x) for x in ast.walk(n.test))]
+    if len(guards) != 1 or not (len(guards[0].body) == 1 and isinstance(guards[0].body[0], ast.Return) and not guards[0].orelse):
+        raise fail(f, "_add_error_info: expected exactly one `if ..._filter_error(file, info): return`")
+    test = guards[0].test
+    flag = None
+    if is_filter_call(test):
+        pass
+    elif (isinstance(test, ast.BoolOp) and isinstance(test.op, ast.And) and len(test.values) == 2
+          and isinstance(test.values[0], ast.UnaryOp) and isinstance(test.values[0].op, ast.Not)
+          and isinstance(test.values[0].operand, ast.Name) and is_filter_call(test.values[1])):
+        flag = test.values[0].operand.id
+        kw = {a.arg: d for a, d in zip(f.args.kwonlyargs, f.args.kw_defaults)}
+        if flag not in kw or not (isinstance(kw[flag], ast.Constant) and kw[flag].value is False):
+            raise fail(f, "_add_error_info: the guard flag must be a keyword-only parameter defaulting to False")
+    else:
+        raise fail(test, "_add_error_info: unsupported watcher guard")
+
+    def calls(fn: ast.FunctionDef) -> list[ast.Call]:
+        return [n for n in ast.walk(fn) if isinstance(n, ast.Call) and isinstance(n.func, ast.Attribute)
+                and n.func.attr == "_add_error_info"]
+    for name in ("add_error_info", "report_simple_error"):
+        for c in calls(fs[name]):
+            if c.keywords:
+                raise fail(c, f"{name}: _add_error_info called with keywords")
+    cs = calls(fs["note_for_info"])
+    if len(cs) != 1:
+        raise fail(fs["note_for_info"], "note_for_info: expected one call of _add_error_info")
+    kws = {k.arg: k.value for k in cs[0].keywords}
+    if not kws:
+        return True
+    if flag is not None and list(kws) == [flag] and isinstance(kws[flag], ast.Constant) and kws[flag].value is True:
+        return False
+    raise fail(cs[0], "note_for_info: unsupported call of _add_error_info")
+
+
+def watch_variant() -> str:
+    return "reentry" if watcher_shape() else "bypass"
+
+
+def place_watch(variant: str) -> dict[str, str]:
+    name = {"reentry": "WatchReentry", "bypass": "WatchBypass"}[variant]
+    with open(os.path.join(ALT, f"{name}.v.txt"), encoding="utf-8") as f:
+        text = f"(* COPIED from coq/C13/alt/{name}.v.txt by tools/extractors/t13.py (variant: {variant}) *)\n" + f.read()
+    vlib.write_if_changed(os.path.join(vlib.GEN, "ErrorsWatch.v"), text)
+    return {"ErrorsWatch.v": text}
+
+
 def generate() -> dict[str, str]:
     util, helpers = gen_util()
     text = "\n\n".join([
@@ -422,10 +486,13 @@ def generate() -> dict[str, str]:
         gen_errors(),
         "(* mypy/util.py *)\n" + util,
         "(* mypy/main.py main(): exit status *)\n" + gen_main(),
+        "(* mypy/errors.py: does the note attached by note_for_info go through _filter_error in _add_error_info? *)\n"
+        f"Definition attached_notes_reenter_watchers : bool := {'true' if watcher_shape() else 'false'}.",
     ]) + "\n"
     vlib.write_if_changed(os.path.join(vlib.GEN, "ErrorsCore.v"), text)
     files = {"ErrorsCore.v": text}
     files.update(place_exit(exit_variant()))
+    files.update(place_watch(watch_variant()))
     return files
 
 
